@@ -77,7 +77,14 @@ class Checker(object):
         import importlib
         mod = importlib.import_module("pv.rules.%s" % other_prop.lower())
         sub = Checker(other_prop, self.prog, self.tier)
-        mod.run(sub)
+        try:
+            mod.run(sub)
+        except AnalysisBroken as e:
+            # the lender could not evaluate one of *its* rules; what it had already decided about the borrowed ones still counts (the
+            # instance count below decides whether that was enough)
+            if not any(o.rule in rules and (key_pred is None or key_pred(o.key)) for o in sub.obs):
+                raise
+            self.note("%s: %s could not be evaluated completely (%s); the borrowed obligations decided before that are used" % (as_rule, other_prop, e))
         an = "; ".join(sorted({sub.rule_desc[r][0] for r in rules if r in sub.rule_desc}))
         self.rule(as_rule, "shared with %s (%s)" % (", ".join(rules), an), desc, min_instances)
         for o in sub.obs:
